@@ -17,6 +17,9 @@ import (
 )
 
 var (
+	// ErrDuplicateTx means a block contained a relevant tx more than once.
+	ErrDuplicateTx = errors.New("Duplicate Tx")
+
 	errBlockDownloadCancelled = errors.New("Block Download Cancelled")
 )
 
@@ -345,6 +348,7 @@ func (bd *BlockDownloader) handleBlock(ctx context.Context, header *wire.BlockHe
 
 	// Process block txs
 	var blockTxIDs []bitcoin.Hash32
+	relevantTxIDs := make(map[bitcoin.Hash32]bool)
 
 	merkleTree := merkle_proof.NewMerkleTree(true)
 	var coinbaseTx *wire.MsgTx
@@ -366,6 +370,16 @@ func (bd *BlockDownloader) handleBlock(ctx context.Context, header *wire.BlockHe
 		}
 
 		if isRelevant {
+			// A block can be extended by repeating transactions at the end without changing its
+			// merkle root (CVE-2012-2459). A relevant tx that is repeated would be confirmed twice,
+			// once with a merkle proof that doesn't verify.
+			if relevantTxIDs[txid] {
+				for range txChannel { // flush channel
+				}
+				return errors.Wrap(ErrDuplicateTx, txid.String())
+			}
+			relevantTxIDs[txid] = true
+
 			blockTxIDs = append(blockTxIDs, txid)
 			merkleTree.AddMerkleProof(txid)
 		}
